@@ -31,8 +31,28 @@
 (*     argmax ties are resolved by position (np.argmax = first); t = "last" is explored    *)
 (*     as well so that the invariants do not depend on the tie rule.                       *)
 (*     Alpha vectors are integers over (PD*OD*GD)^k after k backups.                       *)
-(* (P) invariants at the bottom (NeverOver, ClosedExact, BracketSane, FullObsTight,        *)
-(*     QMDPUpper, AlphaShape ...).  Emit prints what the real code has to satisfy.         *)
+(* (P) invariants at the bottom:                                                          *)
+(*     NeverOver      alpha.b <= Hi_d(b) + SlackUp(k) in every state of every backup run    *)
+(*     ClosedExact    on a successor-closed belief set the backup is exact at the members  *)
+(*     BracketSane    Lo_{d-1} <= Lo_d <= Hi_d <= Hi_{d-1}, per action too                 *)
+(*     QMDPUpper      QMDP = Hi_1 >= Hi_d;  FullObsTight  revealing observations: Hi_d = Hi_1*)
+(*     AlphaShape, HorizonRespected, Terminates, InstancesWellFormed                        *)
+(*     Emit prints what the real code has to satisfy (pipeline A) and the verdicts on the    *)
+(*     recorded expansions / action distributions (pipeline B).                              *)
+(*                                                                                        *)
+(* Batch record = POMDP instance fields (spec/lib/POMDP.tla, states restricted to the        *)
+(* state list of the code) plus                                                            *)
+(*   d          expectimax depth (chosen by the harness so that all integers fit 30 bits)   *)
+(*   beliefs    evaluation beliefs, integer weight vectors                                 *)
+(*   aord       the abstract actions in the order of the code's action_list (tie rule)      *)
+(*   jobs       [bs, EN, ED, H, exact]: belief set in the code's row order, threshold EN/ED, *)
+(*              horizon (H = -1: None), exact = 1 iff the exact machine may run (numbers     *)
+(*              fit, horizon <= HCAP); otherwise only Closed / InSet / Covered are emitted   *)
+(*   expands    [from, to, exact]: recorded expand_beliefs calls (exact = 1: check the       *)
+(*              farthest-successor rule, else membership only)                              *)
+(*   greedy     [rank, supp, wn, wd]: recorded action_dist calls - dense ranks of the        *)
+(*              policy's own action values, reported support and probabilities wn/wd        *)
+(* IOEnv.TIES = "both" explores the second tie rule as well.                                 *)
 EXTENDS POMDP, Json, IOUtils
 
 Batch == JsonDeserialize(IOEnv.BATCH_FILE)
@@ -230,12 +250,12 @@ Covered(m, c, RS, w) ==
 InSet(m, c, RS, w) == Dead(m, c, w) \/ RedNA(m, c, w) \in RS
 Closed(m, c, bs) == LET RS == RedSet(m, c, bs) IN \A i \in 1..Len(bs) : Covered(m, c, RS, bs[i])
 
-JobResult(m, c, j, X, kk, acts, ph, tieflag, edgeflag) ==
+JobResult(m, c, j, t, X, kk, acts, ph, tieflag, edgeflag) ==
   LET bs == JobBs(m, j)
       nb == Len(bs)
       cl == Closed(m, c, bs)
       RS == RedSet(m, c, bs)
-  IN [iid |-> iid, kind |-> "pbvi", job |-> j, tb |-> tb, phase |-> ph, k |-> kk, scale |-> Pow(Sc(m), kk),
+  IN [iid |-> iid, kind |-> "pbvi", job |-> j, tb |-> t, phase |-> ph, k |-> kk, scale |-> Pow(Sc(m), kk),
       alpha |-> X, acts |-> acts, tied |-> tieflag, edge |-> edgeflag, closed |-> cl,
       val  |-> [i \in 1..Len(m.beliefs) |-> AlphaValue(m, X, nb, kk, W(m, m.beliefs[i]))],
       inset |-> [i \in 1..Len(m.beliefs) |-> InSet(m, c, RS, W(m, m.beliefs[i]))],
@@ -307,7 +327,7 @@ Start(j, t) ==
           /\ out' = [iid |-> iid, kind |-> "pbvi", job |-> j, tb |-> t, phase |-> "undefined", h |-> h]
      ELSE IF h = 0 THEN
           /\ phase' = "nohorizon"
-          /\ out' = JobResult(M, orc.c, j, ZeroAlpha(M, Len(M.jobs[j].bs)), 0, <<>>, "nohorizon", FALSE, FALSE)
+          /\ out' = JobResult(M, orc.c, j, t, ZeroAlpha(M, Len(M.jobs[j].bs)), 0, <<>>, "nohorizon", FALSE, FALSE)
      ELSE /\ phase' = "run" /\ out' = <<>>
   /\ UNCHANGED <<iid, orc>>
 
@@ -319,11 +339,11 @@ Backup ==
          tf  == tied \/ r.tie \/ r.edge      \* anything floating point could decide differently
      IN IF r.small
         THEN /\ phase' = "stopped" /\ bv' = bv /\ k' = k /\ tied' = tf
-             /\ out' = JobResult(M, orc.c, jx, bv, k, r.acts, "stopped", tf, r.edge)
+             /\ out' = JobResult(M, orc.c, jx, tb, bv, k, r.acts, "stopped", tf, r.edge)
         ELSE /\ bv' = r.X /\ k' = k + 1 /\ tied' = tf
              /\ IF k + 1 = h
                 THEN /\ phase' = "horizon"
-                     /\ out' = JobResult(M, orc.c, jx, r.X, k + 1, r.acts, "horizon", tf, r.edge)
+                     /\ out' = JobResult(M, orc.c, jx, tb, r.X, k + 1, r.acts, "horizon", tf, r.edge)
                 ELSE phase' = "run" /\ out' = <<>>
   /\ UNCHANGED <<iid, orc, jt, jx, tb>>
 
